@@ -144,3 +144,24 @@ def leibniz_det(A):
             term = term * A[i][perm[i]]
         tot = tot + term
     return tot
+
+
+def basis_ders_on_span(p, K, k, u, order, cx):
+    """ders[d][j] = d-th derivative (from the right) of N_{k-p+j,p} at u, for j = 0..p, d = 0..order:
+    formal derivative of the Cox-de Boor polynomial pieces valid on span k."""
+    from . import core
+    if cx.symbolic:
+        N = basis_on_span(p, K, k, u, cx)
+        return [[core.diff(N[k - p + j], u, d) if d else core.sym(N[k - p + j]) for j in range(p + 1)] for d in range(order + 1)]
+    t = core.SymReal(core.RF(core.Poly.var(core.VARS.get('t!oracle'))))
+    Kc = [core.SymReal.const(Fraction(x)) for x in K]
+    N = basis_on_span(p, Kc, k, t, None)
+    uq = Fraction(u)
+    out = []
+    for d in range(order + 1):
+        row = []
+        for j in range(p + 1):
+            f = core.diff(N[k - p + j], t, d) if d else core.sym(N[k - p + j])
+            row.append(float(core.subst(f, t, core.SymReal.const(uq)).cval()))
+        out.append(row)
+    return out
